@@ -263,11 +263,13 @@ prop('C19', opts={'threads': True, 'abstract_fp': True}, race_replay=True,
      harnesses=[{'name': 'C19_Readers', 'types': {'quick': ['int8', 'float64'], 'thorough': QUICK_T},
                  'params': {'quick': {'MaxC': 2, 'MaxK': 2, 'Readers': 2}, 'thorough': {'MaxC': 2, 'MaxK': 2, 'Readers': 3}}, 'covers': ['joined', '@par-joined']},
                 {'name': 'C19_Writers', 'types': {'quick': ['int8', 'float64'], 'thorough': QUICK_T},
-                 'params': {'quick': {'MaxC': 2, 'MaxK': 2}, 'thorough': {'MaxC': 3, 'MaxK': 3}}, 'covers': ['joined', '@par-joined']}],
-     bounds={'quick': 'readers: 2 goroutines, each running every read-only entry point (getters, Sample, Read, ReadStriped, Slice, Channel view, BufferIndex) with arbitrary arguments on one shared window of a buffer with 1..2 channels, 1..2 frames; writers: frame ranges [0,a) [a,b) [b,K) for every a<=b<=K<=2, two writers (Write / WriteStriped / SetSample loops / channel-view SetSample) and one reader; all orders of the goroutines; every pair of logged accesses checked for an unordered conflict',
+                 'params': {'quick': {'MaxC': 2, 'MaxK': 2}, 'thorough': {'MaxC': 3, 'MaxK': 3}}, 'covers': ['joined', '@par-joined']}] +
+     [{'name': 'C19_Conv_' + fn, 'types': {'quick': conv_pairs(fn, 1)[:1], 'thorough': conv_pairs(fn, 2)},
+       'params': {'quick': {'MaxC': 2, 'MaxK': 2}, 'thorough': {'MaxC': 2, 'MaxK': 2}}, 'covers': ['joined']} for fn in CONVS],
+     bounds={'quick': 'conversion sources: 2 goroutines converting one shared window into their own destinations (all nine conversions); readers: 2 goroutines, each running every read-only entry point (getters, Sample, Read, ReadStriped, Slice, Channel view, BufferIndex) with arbitrary arguments on one shared window of a buffer with 1..2 channels, 1..2 frames; writers: frame ranges [0,a) [a,b) [b,K) for every a<=b<=K<=2, two writers (Write / WriteStriped / SetSample loops / channel-view SetSample) and one reader; all orders of the goroutines; every pair of logged accesses checked for an unordered conflict',
              'thorough': '3 readers; writers with 1..3 channels and 1..3 frames'},
      level_note='Goroutines contain no synchronisation, so every cross-goroutine access pair is concurrent: race freedom is decided by a solver query per pair of accesses to the same object (can the two index expressions be equal?), results are compared with the sequential run. 16 goroutines add no pair types beyond those of 2-3 goroutines running the same entry points but are formally outside the bound.',
-     outside=['more than 3 goroutines', 'conversion functions as concurrent readers (they read through the same Sample/Len accessors)', 'larger shapes'])
+     outside=['more than 3 goroutines', 'larger shapes'])
 
 prop('C11', opts={'threads': True, 'pool_mode': 'all'}, race_replay=True, stress_replay=True,
      harnesses=[{'name': 'C11_Workers', 'types': {'quick': ['int8', 'float64'], 'thorough': ['int8', 'uint16', 'float64']},
